@@ -63,6 +63,30 @@ func init() {
 	registerExec("hcount", hHcount)
 	registerExec("sum", hSum)
 	registerExec("iter", hIter)
+	registerExec("rset", hRset)
+	registerExec("rtxt", hRtxt)
+}
+
+// rset <h> x<bytes>: SetBacking on a byte-vector view (RootView accepts it and rewrites itself;
+// basic value views refuse).  The view is detached: no tree may change.
+func hRset(st *State, a []string) string {
+	hd := st.h(a[0])
+	var r tree.Root
+	copy(r[:], unhex(a[1]))
+	return errStr(hd.vw.SetBacking(&r))
+}
+
+// rtxt <h> x<bytes>: UnmarshalText of the hex form on a byte-vector view (in-place write)
+func hRtxt(st *State, a []string) string {
+	hd := st.h(a[0])
+	txt := []byte("0x" + a[1][1:])
+	switch x := hd.vw.(type) {
+	case *view.RootView:
+		return errStr(x.UnmarshalText(txt))
+	case view.SmallByteVecView:
+		return errStr(x.UnmarshalText(txt))
+	}
+	return "err"
 }
 
 type noHandle struct{ name string }
